@@ -150,8 +150,25 @@ func c07Scenario(u *Unit, name string, sh c07Shape, fault *c07Fault) (*Tracker, 
 			successor = lockHolder(s)
 		}
 		if sh.Req == "auto_crash" {
-			// the crashed server returns later (healing); what is judged is the state after that
-			time.Sleep(60 * time.Second)
+			// with three or more nodes the survivors can finish the failover on their own: a recorded, writable master
+			// must exist before the crashed server returns (with two nodes the published list cannot shrink while the
+			// recorded master is dead; that shape is judged after healing only)
+			preOK := s.WaitUntil(90*time.Second, time.Second, func() bool {
+				m := s.Master()
+				if m == "" || m == master {
+					return false
+				}
+				x := s.W.Snapshot()[m]
+				_, pend := s.Cached("switch")
+				return x != nil && x.Up && !x.ReadOnly && !pend
+			})
+			if !preOK && sh.N >= 3 && fault != nil && tr.Hit {
+				sc.Violate("C07", "failover-not-finished-by-the-survivors", fmt.Sprintf("90 s after the successor took over there is no recorded writable master although %d healthy replicas survive (request %s, fault %v, successor %s, recorded master %q, active=%v)", sh.N-1, sh.Req, fault, successor, s.Master(), s.ActiveNodes()), s.W.Describe())
+			}
+			if preOK {
+				sc.Cover("failover-finished-before-heal")
+			}
+			// the crashed server returns later (healing); what is judged below is the state after that
 			s.W.Restart(master)
 		}
 		if sh.Req == "auto_rofs" {
@@ -259,9 +276,22 @@ func c07Run(u *Unit) {
 	}
 	r := rand.New(rand.NewSource(u.Seed ^ 0x7007))
 	r.Shuffle(len(faults), func(i, j int) { faults[i], faults[j] = faults[j], faults[i] })
-	n := tierN(u.Job.Tier, 10, 1000)
+	n := tierN(u.Job.Tier, 16, 1000)
 	if n > len(faults) {
 		n = len(faults)
+	}
+	// stratified: the first ten of the sample are deaths of the manager right after a call that changed something (a
+	// statement that changed a server, a write to the coordination service): the states in between two such calls are
+	// the ones a successor has to make sense of
+	k := 0
+	for i := range faults {
+		if k >= 10 || k >= n {
+			break
+		}
+		if faults[i].Kind == "kill-after" && faults[i].B.Mut {
+			faults[k], faults[i] = faults[i], faults[k]
+			k++
+		}
 	}
 	for i := 0; i < n; i++ {
 		f := faults[i]
@@ -275,5 +305,5 @@ func init() {
 		Floor: func(string) []string {
 			return []string{"fault:kill-after", "fault:session-expire", "successor:same-host", "successor:other-host", "successor:session-loss"}
 		},
-		Rule: "unit = shape (2-4 HA, wait count, force_switchover, manager on the master's or a replica's host, slow-applying replica) x request kind; a fault-free baseline records the managing instance's external calls from its first write of the request; then one run per (call x {manager dies right after the call took effect with the same host / another host as successor, manager loses its session and lives on}) — sampled in quick, all in thorough; clients commit throughout; non-trivial = the fault hit; distinct by (request, n, manager location, force, fault, call class, successor kind)"})
+		Rule: "unit = shape (2-4 HA, wait count, force_switchover, manager on the master's or a replica's host, slow-applying replica) x request kind; a fault-free baseline records the managing instance's external calls from its first write of the request; then one run per (call x {manager dies right after the call took effect with the same host / another host as successor, manager loses its session and lives on}) — 16 sampled in quick (the first ten among the calls that changed something), all in thorough; clients commit throughout; non-trivial = the fault hit; distinct by (request, n, manager location, force, fault, call class, successor kind)"})
 }
